@@ -5,8 +5,8 @@ D="_seeded/$ID"
 export CARGO_NET_OFFLINE=true
 clean() { git checkout -q -- . ; git clean -q -fd -e _seeded; }
 run_demo() {
-  if [ -f "$D/demo/run.sh" ]; then sh "$D/demo/run.sh" > /tmp/demo3-$ID.out 2>&1; echo "exit $? : $(grep -E 'test result|RESULT' /tmp/demo3-$ID.out | tail -n 2 | tr '\n' ' ' | cut -c1-300)"
-  elif [ -f "$D/demo/run_demo.sh" ]; then sh "$D/demo/run_demo.sh" > /tmp/demo3-$ID.out 2>&1; echo "exit $? : $(grep -E 'test result' /tmp/demo3-$ID.out | tail -n 2 | tr '\n' ' ' | cut -c1-300)"
+  if [ -f "$D/demo/run.sh" ]; then bash "$D/demo/run.sh" > /tmp/demo3-$ID.out 2>&1; echo "exit $? : $(grep -E 'test result|RESULT' /tmp/demo3-$ID.out | tail -n 2 | tr '\n' ' ' | cut -c1-300)"
+  elif [ -f "$D/demo/run_demo.sh" ]; then bash "$D/demo/run_demo.sh" > /tmp/demo3-$ID.out 2>&1; echo "exit $? : $(grep -E 'test result' /tmp/demo3-$ID.out | tail -n 2 | tr '\n' ' ' | cut -c1-300)"
   elif [ -f "$D/demo/demo_tests.diff" ]; then git apply "$D/demo/demo_tests.diff" || echo "demo diff does not apply"; cargo test -p texlang-stdlib --features serde --offline c08_demo 2>&1 | grep -E "^test result" | head -1
   else echo "no demo runner"; fi
 }
